@@ -33,7 +33,7 @@ KF_C01_bare_nested_block(c, f) ==
 
 KnownKey(c, f) ==
   IF c.err # "" THEN ""
-  ELSE IF KF_C04_greedy_elision(c, f) THEN "C04/greedy-elision"
+  ELSE IF KF_C04_greedy_elision(c, f) THEN "C04/greedy-elision"      \* fixed: reported, not suppressed
   ELSE IF KF_C01_bare_nested_block(c, f) THEN "C01/bare-nested-block"
   ELSE ""
 
